@@ -1,5 +1,6 @@
 import LibconfigModel.Read
 import LibconfigModel.Writer
+import LibconfigModel.WriteFile
 /-
   The whole public C API as one transition function over an operation alphabet:
   `step : State → Op → State × Out`.  Property theorems quantify over `Op`
@@ -64,6 +65,8 @@ inductive Op where
   | getFormat (p : Path)
   | getOption (o : Nat)
   | write
+  | writeFile (path : Bytes)
+  | cat (path : Bytes)
   -- the file system the reads see
   | mkfile (path content : Bytes)
   | mkdir (path : Bytes)
@@ -260,6 +263,13 @@ def step (s : State) (op : Op) : State × Out :=
   | .getFormat p => query s p (fun n => .nat (effFormat c n))
   | .getOption o => (s, { res := .flag (c.opt o) })
   | .write => (s, { res := .bytes (c.write Generated.FLOAT_BUF_SIZE) })
+  | .writeFile path =>
+    let r := writeFile Generated.FLOAT_BUF_SIZE c { openOk := s.world.canCreate path }
+    let w' : World := match r.fileBytes with
+      | some b => { files := (path, some b) :: s.world.files.filter (·.1 != path) }
+      | none => s.world
+    ({ cfg := r.cfg, world := w' }, { res := .flag r.ret })
+  | .cat path => (s, { res := match s.world.open? path with | some b => .bytes b | none => .ptr none })
   | .mkfile p content => ({ s with world := { files := (p, some content) :: s.world.files.filter (·.1 != p) } }, { res := .unit })
   | .mkdir p => ({ s with world := { files := (p, none) :: s.world.files.filter (·.1 != p) } }, { res := .unit })
   | .rmfile p => ({ s with world := { files := s.world.files.filter (·.1 != p) } }, { res := .unit })
